@@ -24,6 +24,7 @@ mod c20; // C20
 mod c15;
 mod c11; // C11
 mod c06;
+mod c08;
 
 use std::io::{BufRead, Write};
 
@@ -42,6 +43,7 @@ fn main() {
             let out = std::io::stdout();
             let mut out = std::io::BufWriter::new(out.lock());
             let lines = match prop {
+                "C08" => c08::gen(tier, seed),
                 "C06" => c06::gen(tier, seed),
                 "C11" => c11::gen(tier, seed), // C11
                 "C15" => c15::gen(tier, seed),
@@ -81,6 +83,7 @@ fn main() {
                 let l2 = line.clone();
                 let p = prop.to_string();
                 let res = std::panic::catch_unwind(move || match p.as_str() {
+                    "C08" => c08::eval(&l2),
                     "C11" => c11::eval(&l2), // C11
                     "C15" => c15::eval(&l2),
                     "C20" => c20::eval(&l2), // C20
@@ -122,6 +125,7 @@ fn main() {
                 let l2 = line.clone();
                 let p = prop.to_string();
                 let res = std::panic::catch_unwind(move || match p.as_str() {
+                    "C08" => c08::expand(&l2),
                     "KALL" | "C01" | "C02" | "C07" | "C14" | "C18" => kan::expand(&l2),
                     "C04" | "LALL" | "C05" | "C06" | "C17" | "C08" | "C09" => lay::expand(&l2),
                     _ => l2.clone(),
